@@ -511,7 +511,12 @@ func genC06(r *Rand, p *Plan, tier string) {
 				extras = true
 			}
 		}
-		if !deep && !extras && r.Chance(15) {
+		if !deep && !extras && r.Chance(10) {
+			// a peer that stops reading for a while in the middle of the exchange: one reply's
+			// write blocks while the clock runs, then goes through; the client pipelines
+			cs.WFault = append(cs.WFault, WFaultAt(1+r.Intn(4), "park"))
+			p.Scen.Stall = true
+		} else if !deep && !extras && r.Chance(15) {
 			// the transport refuses one write outright (nothing of it goes out); the client
 			// pipelines, and every other reply must still be a whole, correct packet
 			cs.WFault = append(cs.WFault, WFaultAt(1+r.Intn(6), "error"))
